@@ -3,8 +3,7 @@
 prop=$1; patch=$(realpath $2); tier=${3:-quick}
 cd /repo || exit 2
 if [ -n "$(git status --porcelain --untracked-files=no)" ]; then echo "repo dirty"; exit 2; fi
-git apply --3way "$patch" 2>/dev/null || git apply "$patch" || { echo "patch does not apply"; exit 2; }
-git reset -q
+git apply "$patch" || { echo "patch does not apply"; git reset -q --hard HEAD; exit 2; }
 cd /verif && ./check $prop --tier $tier > /tmp/seeded_$prop.out 2>&1; rc=$?
 grep -E "^(VIOLATION|KNOWN-FINDING|C[0-9]+ )" /tmp/seeded_$prop.out | cut -c1-300 | head -12
 echo "exit=$rc"
